@@ -440,6 +440,7 @@ Proof.
   all: try (destruct k; cbn).
   all: match goal with
        | |- context [Bool.eqb ?a ?b] => destruct (Bool.eqb a b); cbn; [apply IH|split; congruence]
+       | |- context [negb ?a] => destruct a; cbn; [split; congruence|apply IH]
        end.
 Qed.
 
